@@ -443,7 +443,7 @@ def classify(line, out):
 # --------------------------------------------------------------------------
 
 NAMES = [b"alice", b"bob", b"Bob", b"BOB", b"carol", b"x", b"al", b"a b", b"\xc3\xbcser", b"dave", b"eve",
-         b"alice2", b"ALICE"]
+         b"alice2", b"ALICE", b"L" + b"o" * 255 + b"ng"]          # the last one does not fit userbuf[256]
 PWS = [b"wonder", b"builder", b"s3cret!", b"p:w", b"pass word", b"x" * 40, b"Wonder", b"wonder ", b"q"]
 REALMS = [b"R1", b"R2", b"my realm"]
 PREFIXES = [b"/priv", b"/priv/deep", b"/dig", b"/dig/s", b"/a", b"/app/", b"/p", b"/dig2"]
@@ -571,7 +571,7 @@ class World:
         stats["basic:" + kind] += 1
         return pre + b
 
-    def digest_header(self, rule, method, uri, stats):
+    def digest_header(self, rule, method, uri, stats, h2=0):
         rng = self.rng
         u, pw = self.pick_user()
         realm = rule.realm
@@ -580,6 +580,9 @@ class World:
         secret = rule.secret
         f = dict(qop=b"auth", nc=b"00000001", cnonce=rng.choice([b"abc", b"0a4f113b", b"x y"]), algo=None,
                  uh=False, userparam=None, extra=b"", sess=False, resp_method=method.encode(), resp_uri=uri)
+        if h2 and rng.random() < 0.5:
+            f["resp_method"] = b"GET"               # extended CONNECT: a digest over "GET" is accepted too
+            stats["digest:h2-get"] += 1
         kinds = []
         for _ in range(rng.choice([0, 0, 0, 1, 1, 1, 2])):
             kinds.append(rng.choice([
@@ -755,7 +758,7 @@ class World:
         elif (rule.scheme == "b") != (rng.random() < 0.04):
             hdr = self.basic_header(stats)
         else:
-            hdr = self.digest_header(rule, method, target, stats)
+            hdr = self.digest_header(rule, method, target, stats, h2)
         return q_op(method, target, path, hdr, h2)
 
     def cross_request(self, stats):
@@ -965,7 +968,15 @@ def gen(ctx):
     return lines
 
 
+def _scratch_tmpdir():
+    """the harness keeps its user file under $TMPDIR; point it into a scratch directory that is
+    removed at exit even when a sanitizer abort skips the harness's own cleanup"""
+    import os
+    os.environ["TMPDIR"] = C.scratch_dir("auth")
+
+
 def run(ctx):
+    _scratch_tmpdir()
     exe, err = C.build_harness("h_auth", libs=HLIBS)
     if exe is None:
         ctx.broken.append({"kind": "harness-build", "names": ["h_auth"], "log": err[-3000:]})
@@ -989,6 +1000,7 @@ def run(ctx):
 
 
 def replay_line(ctx, rep):
+    _scratch_tmpdir()
     exe, err = C.build_harness("h_auth", libs=HLIBS)
     line = rep["input"]
     o, rc, e = C.run_lines([exe], [line])
